@@ -131,7 +131,9 @@ def gen_unit(rng, tier):
            kline(1, 0, 0, 1, 3, [10], [0], [3], [2**62]),
            kline(0, 0, 0, 0, 3, [10], [0], [3], [2**63 - 1]),
            kline(0, 1, 1, 1, 3, [10, 4], [0, 0], [3, 1], [2**62, 1]),
-           kline(0, 0, 0, 0, 4, [4, 10], [0, 1], [1, 5], [1, 2**62])]
+           kline(0, 0, 0, 0, 4, [4, 10], [0, 1], [1, 5], [1, 2**62]),
+           kline(0, 0, 0, 0, 2, [2**63 - 1], [2**63 - 2], [2**63 - 1], None),
+           kline(1, 0, 0, 1, 3, [2**63 - 1], [2**63 - 2], [2**63 - 1], [1])]
     return wit + lines
 
 
@@ -670,14 +672,28 @@ def run_check(tier, seed):
                          (pc.returncode, len(co), pl.returncode, len(lo), (pc.stderr + pl.stderr)[-400:]))
             return V.finish()
         unit_seen = set()
+        # which check_EEDGE does this tree have?  decided by the replay of the F15 witness (first line of the
+        # generated stream): the original code accepts it (64-bit wrap-around, model Scs.c64), the repaired
+        # division form rejects it with NC_EEDGE (model Scs.divForm).  Both variants have their theorems
+        # (checkSCS_iff_counterexample / _partial  resp.  checkSCS_iff_repaired).
+        wit0 = kline(0, 0, 0, 0, 3, [10], [0], [3], [2**62])
+        variant = 'c64'
+        try:
+            if int(co[klines.index(wit0)]) == EEDGE:
+                variant = 'divForm'
+        except (ValueError, IndexError):
+            pass
+        V.cov['check_EEDGE_variant'] = variant
+        log('[S4] check_EEDGE variant of this tree: %s' % variant)
         for i, line in enumerate(klines):
             if line in unit_seen:
                 continue
             unit_seen.add(line)
             try:
-                real = int(co[i]); m64, mex, inb = map(int, lo[i].split())
+                real = int(co[i]); m64, mex, inb, mdiv = map(int, lo[i].split())
             except ValueError:
                 tie_diffs.append((line, co[i], lo[i])); continue
+            mvar = mdiv if variant == 'divForm' else m64
             key = {0: 'accepted', EINVALCOORDS: 'EINVALCOORDS', EEDGE: 'EEDGE', ESTRIDE: 'ESTRIDE', ENEGATIVECNT: 'ENEGATIVECNT'}.get(real, 'other%d' % real)
             dist['unit:' + key] = dist.get('unit:' + key, 0) + 1
             k = None
@@ -694,14 +710,11 @@ def run_check(tier, seed):
                     'C15:checker:real=%d:spec=%s' % (real, 'InBounds' if inb else mex)
                 prop_fail.append((sig, 'check_start_count_stride returns %d, specification: %s' %
                                   (real, 'request is in bounds' if inb else 'not in bounds, documented error %d' % mex),
-                                  dict(stream='unit', line=line, real=real, model64=m64, model_exact=mex, inbounds=inb)))
+                                  dict(stream='unit', line=line, real=real, model64=m64, model_exact=mex, model_repaired=mdiv, inbounds=inb)))
                 if sig == SIG_F15:
                     dist['unit:F15-witness'] = dist.get('unit:F15-witness', 0) + 1
-            if real != m64:
-                # outside the no-overflow envelope C's behaviour is undefined; agreeing with the exact
-                # (specification-conforming) model there is not a discrepancy (= the F15 repair)
-                if not (real == mex and overflow_class(k or parse_k(line))):
-                    tie_diffs.append((line, co[i], lo[i]))
+            if real != mvar:
+                tie_diffs.append((line, co[i], lo[i], 'variant ' + variant))
         n_unit = len(unit_seen)
         log('[S4] unit: %d distinct tuples through the real checker and the Lean model in %.1fs' % (n_unit, t1.s()))
         # ---------------- api stream
